@@ -84,6 +84,9 @@ func HandShards() map[string]HandShard {
 		// bitfield without any bit although links are present
 		"irregular zero-bitfield root":  {Fanout: 16, ZeroBitfield: true, Links: []HandShardLink{hv(1, "top"), hc(3, hs(16, hv(0xA, "q"), hc(0xB, hs(16, hv(1, "x")))))}},
 		"irregular zero-bitfield inner": hs(16, hv(1, "top"), hc(3, HandShard{Fanout: 16, ZeroBitfield: true, Links: []HandShardLink{hv(0xA, "q"), hc(0xB, hs(16, hv(1, "x")))}})),
+		// empty child shards (no writer emits them; a decodable block all the same)
+		// next to ordinary ones
+		"irregular empty-child": hs(16, hv(1, "top"), hc(3, hs(16)), hc(5, hs(16, hv(2, "x"), hv(9, "y"))), hc(7, hs(16)), hc(9, hs(16, hv(1, "z"))), hc(12, hs(16))),
 		// uniform, for comparison (same writer)
 		"uniform 16>16": hs(16, hv(1, "top"), hc(3, hs(16, hv(0xA, "q"), hc(0xB, hs(16, hv(1, "x")))))),
 	}
